@@ -283,6 +283,9 @@ func mergeCustomObjectFields(aTypes, bTypes map[string]*ast.Definition, a, b *as
 		}
 
 		rf := result.ForName(f.Name)
+		if rf != nil && !isSameFieldSignature(rf, f) {
+			return nil, fmt.Errorf("overlapping field %s.%s is declared with different types or arguments", a.Name, f.Name)
+		}
 		isOverlappinggMap[i] = rf != nil
 		result = append(result, f)
 	}
@@ -317,6 +320,27 @@ func mergeCustomObjectFields(aTypes, bTypes map[string]*ast.Definition, a, b *as
 	}
 
 	return result, nil
+}
+
+// isSameFieldSignature tells whether two declarations of a field agree on its type and on
+// the names, types and defaults of its arguments
+func isSameFieldSignature(a, b *ast.FieldDefinition) bool {
+	if a.Type.String() != b.Type.String() || len(a.Arguments) != len(b.Arguments) {
+		return false
+	}
+	for _, aa := range a.Arguments {
+		ba := b.Arguments.ForName(aa.Name)
+		if ba == nil || aa.Type.String() != ba.Type.String() {
+			return false
+		}
+		if (aa.DefaultValue == nil) != (ba.DefaultValue == nil) {
+			return false
+		}
+		if aa.DefaultValue != nil && aa.DefaultValue.String() != ba.DefaultValue.String() {
+			return false
+		}
+	}
+	return true
 }
 
 func mergeableFields(t *ast.Definition) ast.FieldList {
